@@ -1,4 +1,4 @@
-import vf, e2obs, importlib, e4
+import vf, e2obs, importlib, e4, trees
 C20 = importlib.import_module("C20")
 
 ENC = ["cminx.aggregator.DocumentationAggregator.enterDocumented_module", "DocumentationAggregator.clean_doc_lines",
@@ -6,12 +6,13 @@ ENC = ["cminx.aggregator.DocumentationAggregator.enterDocumented_module", "Docum
        "cminx.rstwriter.Heading.build_heading_string, RSTWriter.title setter, RSTWriter.to_text"]
 
 
-def mod_ob(has_name, nl, nb, l, follow_doc, timeout):
-    return vf.CH(f"C12.c @module name={'yes' if has_name else 'no'}(len {nl}) body-lines={nb} L={l} following-command-documented={follow_doc}",
-                 "c12_module.py", dict(HAS_NAME=has_name, NAMELEN=nl, NB=nb, L=l, FOLLOW_DOC=follow_doc, NCP=nl + nb * l + l),
+def mod_ob(has_name, nl, blens, l, follow_doc, timeout):
+    nb = len(blens)
+    return vf.CH(f"C12.c @module name={'yes' if has_name else 'no'}(len {nl}) body line lengths={blens} following-command-documented={follow_doc}",
+                 "c12_module.py", dict(HAS_NAME=has_name, NAMELEN=nl, BLENS=tuple(blens), L=l, FOLLOW_DOC=follow_doc, NCP=nl + sum(blens) + l),
                  timeout=timeout, encodes=ENC,
                  symbolic="module name (printable, no separators), body lines, the following command's doc line, page title (2 chars), header character",
-                 bound=f"name {nl} chars, {nb} body lines of {l} chars")
+                 bound=f"name {nl} chars, body lines of lengths {blens} (0 = empty line)")
 
 
 def build(tier):
@@ -21,12 +22,15 @@ def build(tier):
     obs = [e4.ob_names('C12')]
     for has_name in (True, False):
         for fd in (True, False):
-            obs.append(mod_ob(has_name, 2 if quick else 4, 2, 2 if quick else 3, fd, t))
-    obs.append(mod_ob(True, 3, 0, 1, True, t))
+            obs.append(mod_ob(has_name, 2 if quick else 4, (0, 2, 0, 1) if quick else (0, 3, 0, 0, 2), 2 if quick else 3, fd, t))
+    obs.append(mod_ob(True, 3, (), 1, True, t))
+    obs.append(mod_ob(True, 2, (2, 2), 2, False, t))
     # C12.b title framing (over/underline = first header char x len(title); re-framed on change): writer scripts with longer titles
     for name in ("empty", "flat"):
         obs.append(C20.ob(name, C20.SCRIPTS[name], 2, 6 if quick else 10, timeout=t))
     obs[-1].name = obs[-1].name.replace("C20.a", "C12.b"); obs[-2].name = obs[-2].name.replace("C20.a", "C12.b")
+    # default prefix = the input directory's own name, also when another directory was documented before with the same settings object
+    obs.append(trees.tree_ob('C12.a', 'S2q' if quick else 'S2', 'hist', dict(ext_t=False, ext_m=False, sep2=False, excl_root=False, out_i=0, recursive=True, auto_ex=False), fixexcl=True, fixrev=True, timeout=t))
     # C12.d '#[[[ @module ...' is lexed as Module_docstring (wins the tie over Docstring), so the parser cannot attach it to a command
     obs.append(e2obs.ob_validate(D, tier))
     obs.append(e2obs.ob_canon("C12", D, module=True, label="C12.d"))
